@@ -55,10 +55,10 @@ theorem C06_frame (w : World) (u : User) (c : Cmd) (crash : Option Nat) :
         (x ∈ (step w (.run u c crash)).db.decls ↔ x ∈ w.db.decls)) ∧
     (∀ r : TagRec, ¬ (r.name = c.name ∧ r.flav = c.self ∧ (c.fpTag r.tag ∨ c.fpVer r.ver)) →
         (r ∈ (step w (.run u c crash)).db.tags ↔ r ∈ w.db.tags)) := by
-  obtain ⟨m, dirs, es, hs, he⟩ := step_db true w u c crash
+  obtain ⟨m, dirs, ex, es, hs, he⟩ := step_db true w u c crash
   have hok : ∀ e ∈ es, Within c.name c.self c.fpVer c.fpTag e := by
     intro e hes
-    exact run_trOK w.nst c ⟨w.db, m, dirs, []⟩ (by intro e h; simp at h) e (hs.subset hes)
+    exact run_trOK w.nst c ⟨w.db, m, dirs, [], ex⟩ (by intro e h; simp at h) e (hs.subset hes)
   unfold step
   rw [he]
   clear he hs
@@ -118,15 +118,15 @@ theorem C06_conflicting_redeclare_refused (nst : Nat) (dirs : List DirEnt) (h : 
   obtain ⟨m, hv, _, hout, _⟩ := step_run_sub hinv u (.declare a)
   rw [hout]
   simp only [run]
-  have hde : (⟨w.db, m, w.dirs, []⟩ : Proc).dirExists d = true := by
+  have hde : (⟨w.db, m, w.dirs, [], w.extras⟩ : Proc).dirExists d = true := by
     simp only [Proc.dirExists, List.any_eq_true] at hex ⊢
     obtain ⟨e, he, hk⟩ := hex
     simp only [Bool.and_eq_true] at hk
     exact ⟨e, he, hk.1⟩
-  have hres := resolveDeclare_explicit (nst := w.nst) (p := ⟨w.db, m, w.dirs, []⟩) hdir htag htn hstack hde hex
+  have hres := resolveDeclare_explicit (nst := w.nst) (p := ⟨w.db, m, w.dirs, [], w.extras⟩) hdir htag htn hstack hde hex
     (hn ▸ hroot)
   have hag : AgreeOnN m w.db d.root a.self a.name := hv d.root (hn ▸ hroot) a.name
-  have hmem : (⟨w.db, m, w.dirs, []⟩ : Proc).mem = m := rfl
+  have hmem : (⟨w.db, m, w.dirs, [], w.extras⟩ : Proc).mem = m := rfl
   have hfind : m.findDecl d.root a.name a.ver a.self = some o := by
     rw [findDecl_agree hag hinv.dbinv.ku]; exact hold
   have ho := findDecl_some hfind
@@ -160,7 +160,7 @@ theorem C06_undeclare_removes_tags (nst : Nat) (dirs : List DirEnt) (h : List WC
   rw [hout] at hok
   unfold step
   rw [hdb]
-  obtain ⟨s, v, h1, h2, h3, h4⟩ := undeclare_ok (nst := w.nst) (a := a) (p := ⟨w.db, m, w.dirs, []⟩) hok hna hform
+  obtain ⟨s, v, h1, h2, h3, h4⟩ := undeclare_ok (nst := w.nst) (a := a) (p := ⟨w.db, m, w.dirs, [], w.extras⟩) hok hna hform
   refine ⟨s, v, h1, h2, h3, ?_⟩
   intro r hr hp
   have := h4 r hr
@@ -183,7 +183,7 @@ theorem C06_first_version_current (nst : Nat) (dirs : List DirEnt) (h : List WCm
   rw [hout] at hok
   unfold step
   rw [hdb]
-  have hcur : declareTag w.nst a (⟨w.db, m, w.dirs, []⟩ : Proc).mem = some current := by
+  have hcur : declareTag w.nst a (⟨w.db, m, w.dirs, [], w.extras⟩ : Proc).mem = some current := by
     show declareTag w.nst a m = some current
     unfold declareTag
     rw [htag]
@@ -194,7 +194,7 @@ theorem C06_first_version_current (nst : Nat) (dirs : List DirEnt) (h : List WCm
       exfalso
       have := mem_findProducts (show x ∈ findProducts m w.nst a.self a.name none (allStacks w.nst) by rw [hl]; simp)
       exact hfirst x (hsub x this.1) this.2
-  obtain ⟨r, _, h1, h2⟩ := declare_ok_tag (nst := w.nst) (a := a) (p := ⟨w.db, m, w.dirs, []⟩) hok hna hcur
+  obtain ⟨r, _, h1, h2⟩ := declare_ok_tag (nst := w.nst) (a := a) (p := ⟨w.db, m, w.dirs, [], w.extras⟩) hok hna hcur
   exact ⟨r.target, h1, h2⟩
 
 /-- **Assigning a tag makes it name the version, in the stack of the version** (`declare -t`).  After any
@@ -213,10 +213,10 @@ theorem C06_last_assignment_wins (nst : Nat) (dirs : List DirEnt) (h : List WCmd
   rw [hout] at hok
   unfold step
   rw [hdb]
-  have ht : declareTag w.nst a (⟨w.db, m, w.dirs, []⟩ : Proc).mem = some t := by
+  have ht : declareTag w.nst a (⟨w.db, m, w.dirs, [], w.extras⟩ : Proc).mem = some t := by
     show declareTag w.nst a m = some t
     unfold declareTag; rw [htag]
-  obtain ⟨r, _, h1, h2⟩ := declare_ok_tag (nst := w.nst) (a := a) (p := ⟨w.db, m, w.dirs, []⟩) hok hna ht
+  obtain ⟨r, _, h1, h2⟩ := declare_ok_tag (nst := w.nst) (a := a) (p := ⟨w.db, m, w.dirs, [], w.extras⟩) hok hna ht
   exact ⟨r.target, h1, h2⟩
 
 /-- the same for a direct `Eups.assignTag` -/
@@ -232,7 +232,7 @@ theorem C06_last_assignment_wins_assignTag (nst : Nat) (dirs : List DirEnt) (h :
   unfold step
   rw [hdb]
   obtain ⟨s, _, h1, h2⟩ := assignTag_ok (f := f) (t := t) (n := n) (v := v) (stacks := stacksOf w.nst st)
-    (p := ⟨w.db, m, w.dirs, []⟩) hok
+    (p := ⟨w.db, m, w.dirs, [], w.extras⟩) hok
   exact ⟨s, h1, h2⟩
 
 /-- **D32 (open).**  Path-wide, "resolving the tag yields the version it was last assigned to" is false for a
@@ -242,8 +242,8 @@ theorem C06_assign_tag_other_stack_witness :
     let p : Name := [112]; let L : Flav := [76]; let stable : Tag := [115]
     let dirs : List DirEnt := [⟨⟨0, relDir L p [49]⟩, p⟩, ⟨⟨1, relDir L p [50]⟩, p⟩]
     let w := runHistory (World.init 2 dirs)
-      [.run 0 (.declare ⟨L, p, [49], some ⟨0, relDir L p [49]⟩, none, false, some stable, false, false⟩) none,
-       .run 0 (.declare ⟨L, p, [50], some ⟨1, relDir L p [50]⟩, none, false, none, false, false⟩) none,
+      [.run 0 (.declare ⟨L, p, [49], some ⟨0, relDir L p [49]⟩, none, false, some stable, false, false, []⟩) none,
+       .run 0 (.declare ⟨L, p, [50], some ⟨1, relDir L p [50]⟩, none, false, none, false, false, []⟩) none,
        .run 0 (.assignTag L stable p [50] none) none]
     (w.db.findTagged (allStacks 2) p stable L).map (·.ver) = some [49] ∧
     w.db.tagVer 0 stable p L = some [49] ∧ w.db.tagVer 1 stable p L = some [50] := by decide
@@ -297,8 +297,8 @@ example :
     let p : Name := [112]; let L : Flav := [76]; let beta : Tag := [98]
     let dirs : List DirEnt := [⟨⟨0, relDir L p [49]⟩, p⟩, ⟨⟨0, relDir L p [50]⟩, p⟩]
     let w := runHistory (World.init 2 dirs)
-      [.run 0 (.declare ⟨L, p, [49], some ⟨0, relDir L p [49]⟩, none, false, none, false, false⟩) none,
-       .run 0 (.declare ⟨L, p, [50], some ⟨0, relDir L p [50]⟩, none, false, some beta, false, false⟩) none]
+      [.run 0 (.declare ⟨L, p, [49], some ⟨0, relDir L p [49]⟩, none, false, none, false, false, []⟩) none,
+       .run 0 (.declare ⟨L, p, [50], some ⟨0, relDir L p [50]⟩, none, false, some beta, false, false, []⟩) none]
     (w.db.decls.length, w.db.tags.length) = (2, 2) := by decide
 
 /-- the hypotheses of `C06_conflicting_redeclare_refused`, `C06_refused_redeclare_is_noop`,
@@ -309,12 +309,12 @@ example :
     let p : Name := [112]; let L : Flav := [76]; let beta : Tag := [98]
     let d1 : Dir := ⟨0, relDir L p [49]⟩; let d2 : Dir := ⟨0, relDir L p [50]⟩
     let dirs : List DirEnt := [⟨d1, p⟩, ⟨d2, p⟩]
-    let first : WCmd := .run 0 (.declare ⟨L, p, [49], some d1, none, false, none, false, false⟩) none
+    let first : WCmd := .run 0 (.declare ⟨L, p, [49], some d1, none, false, none, false, false, []⟩) none
     let w := runHistory (World.init 2 dirs) [first]
     (stepG true (World.init 2 dirs) first).out = .ok ∧
-    (stepG true w (.run 0 (.declare ⟨L, p, [49], some d2, none, false, none, false, false⟩) none)).out = .refused ∧
+    (stepG true w (.run 0 (.declare ⟨L, p, [49], some d2, none, false, none, false, false, []⟩) none)).out = .refused ∧
     w.db.findDecl 0 p [49] L = some ⟨0, p, [49], L, d1, .default⟩ ∧
-    (stepG true w (.run 0 (.declare ⟨L, p, [50], some d2, none, false, some beta, false, false⟩) none)).out = .ok ∧
+    (stepG true w (.run 0 (.declare ⟨L, p, [50], some d2, none, false, some beta, false, false, []⟩) none)).out = .ok ∧
     (stepG true w (.run 0 (.undeclare ⟨L, p, some [49], none, none, false, false, false, none⟩) none)).out = .ok := by decide
 
 /-- two flavors share one version file and one chain file; undeclaring one flavor leaves the other's blocks -/
@@ -322,8 +322,8 @@ example :
     let p : Name := [112]; let L : Flav := [76]
     let dirs : List DirEnt := [⟨⟨0, relDir L p [49]⟩, p⟩, ⟨⟨0, relDir generic p [49]⟩, p⟩]
     let h : List WCmd :=
-      [.run 0 (.declare ⟨L, p, [49], some ⟨0, relDir L p [49]⟩, none, false, none, false, false⟩) none,
-       .run 0 (.declare ⟨generic, p, [49], some ⟨0, relDir generic p [49]⟩, none, false, none, false, false⟩) none]
+      [.run 0 (.declare ⟨L, p, [49], some ⟨0, relDir L p [49]⟩, none, false, none, false, false, []⟩) none,
+       .run 0 (.declare ⟨generic, p, [49], some ⟨0, relDir generic p [49]⟩, none, false, none, false, false, []⟩) none]
     let F := (runHistoryF 1 dirs h).1
     let F' := (runHistoryF 1 dirs (h ++ [.run 0 (.undeclare ⟨L, p, some [49], none, none, false, false, false, none⟩) none])).1
     (F.vfiles.map (fun x => x.recs.map (·.flav)), F.cfiles.map (fun x => x.recs.map (·.flav)),
